@@ -104,6 +104,21 @@ if spec.get("fast_timeouts"):
             return super().join(min(timeout, 0.05))
     lh.Thread = ShimThread
 
+import builtins, pickle
+def _rebuild_fails(name):
+    cls = getattr(builtins, name, None) or getattr(pickle, name)
+    if cls is UnicodeDecodeError:
+        raise UnicodeDecodeError("utf8", b"\xff", 0, 1, "cannot rebuild")
+    raise cls("cannot rebuild this object in the worker")
+class Poison:
+    """pickles fine, but its reconstruction on the reading side of the queue raises"""
+    def __init__(self, name):
+        self.name = name
+    def __reduce__(self):
+        return (_rebuild_fails, (self.name,))
+    def __repr__(self):
+        return "Poison(%s)" % self.name
+
 def dyn_nl(record):
     return "{message}\n{exception}"
 def dyn_nonl(record):
@@ -115,9 +130,12 @@ FORMATS = {"static": "{message}", "dyn_nl": dyn_nl, "dyn_nonl": dyn_nonl, "dyn_e
 
 class Stream:
     encoding = "utf8"   # same exception-formatting symbols as the capture sink
-    def __init__(self, name, path, buffering, slow, stoppable, flushable):
-        self.name, self.slow, self.gated = name, slow, False
-        self.f = open(path, "a", buffering=buffering, encoding="utf8", newline="")
+    def __init__(self, name, path, buffering, slow, stoppable, flushable, inner=None, die_on=None):
+        self.name, self.slow, self.gated, self.die_on = name, slow, False, die_on
+        if inner:
+            self.f = open_impl(inner, path)
+        else:
+            self.f = open(path, "a", buffering=buffering, encoding="utf8", newline="")
         if flushable:
             self.flush = self.f.flush
         if stoppable:
@@ -127,6 +145,8 @@ class Stream:
             GATE.wait()
         if self.slow:
             time.sleep(self.slow)
+        if self.die_on is not None and m.record["extra"]["i"] == self.die_on:
+            raise SystemExit(7)      # a BaseException: in the worker thread of an enqueued handler it ends the thread
         self.f.write(m)
     def _stop(self):
         report("stop " + self.name)
@@ -181,10 +201,9 @@ def make_stream(s):
         st = PropProxy(st)
     return st
 
-def make_stream0(s):
-    """the stream object handed to logger.add(): the file objects are passed AS THEY ARE"""
+def open_impl(impl, path):
+    """the io objects a user may build: every layering of TextIOWrapper over BufferedWriter / a raw file"""
     import io
-    impl, path = s.get("impl", "wrapper"), s["path"]
     if impl in ("block", "proxy", "propproxy"):
         return open(path, "a", encoding="utf8", newline="")
     if impl == "line":
@@ -193,18 +212,36 @@ def make_stream0(s):
         return open(path, "a", buffering=1 << 16, encoding="utf8", newline="")
     if impl == "wt":
         return io.TextIOWrapper(open(path, "ab", buffering=0), encoding="utf8", newline="", write_through=True)
+    if impl == "wtbuf":
+        return io.TextIOWrapper(open(path, "ab"), encoding="utf8", newline="", write_through=True)
+    if impl == "wtsmall":
+        return io.TextIOWrapper(open(path, "ab", buffering=64), encoding="utf8", newline="", write_through=True)
+    if impl == "linesmall":
+        return io.TextIOWrapper(open(path, "ab", buffering=16), encoding="utf8", newline="", line_buffering=True)
+    if impl == "linewt":
+        return io.TextIOWrapper(open(path, "ab"), encoding="utf8", newline="", line_buffering=True, write_through=True)
     if impl == "rawwrap":
         return io.TextIOWrapper(open(path, "ab", buffering=0), encoding="utf8", newline="")
     if impl == "linewrap":
         return io.TextIOWrapper(open(path, "ab"), encoding="utf8", newline="", line_buffering=True)
     if impl == "reconf":
         return open(path, "a", buffering=1, encoding="utf8", newline="")   # reconfigured after add(), see below
+    raise ValueError(impl)
+
+def make_stream0(s):
+    """the stream object handed to logger.add(): the file objects are passed AS THEY ARE"""
+    impl, path = s.get("impl", "wrapper"), s["path"]
     if impl == "stderr":
         return sys.stderr          # redirected by the parent to s["path"]
+    if impl == "stdoutwt":
+        sys.stdout.reconfigure(write_through=True)      # the process's stdout, redirected by the parent to s["path"]
+        return sys.stdout
     if impl == "membuf":
         return MemBuf(path)
+    if impl != "wrapper":
+        return open_impl(impl, path)
     return Stream(s["name"], path, s.get("buffering", -1), s.get("slow", 0), bool(s.get("stoppable")),
-                  bool(s.get("flushable", True)))
+                  bool(s.get("flushable", True)), s.get("inner"), s.get("die_on"))
 
 def capture(name):
     def sink(m):
@@ -251,6 +288,9 @@ for s in spec["sinks"]:
             kw["compression"] = s["compression"]
         if s.get("retention") is not None:
             kw["retention"] = s["retention"]
+        for opt in ("mode", "buffering", "delay", "watch"):
+            if s.get(opt) is not None:
+                kw[opt] = s[opt]
         IDS[s["name"]] = logger.add(s["path"], format=fmt, serialize=ser, enqueue=bool(s.get("enqueue")), **kw)
     else:
         st = make_stream(s)
@@ -293,7 +333,10 @@ def main():
     maybe_fork(0)
     for i, m in enumerate(spec["messages"], 1):
         CUR[0] = i
-        lg = logger.bind(i=i, rot=bool(m.get("rot"))).opt(raw=bool(m.get("raw")), exception=bool(m.get("exc")))
+        lg = logger.bind(i=i, rot=bool(m.get("rot")))
+        if m.get("poison"):
+            lg = lg.bind(attachment=Poison(m["poison"]))
+        lg = lg.opt(raw=bool(m.get("raw")), exception=bool(m.get("exc")))
         if m.get("exc"):
             try:
                 raise ValueError("boom é %d\nsecond line of the error" % i)
@@ -301,6 +344,14 @@ def main():
                 lg.info(m["text"])
         else:
             lg.info(m["text"])
+        for s in spec["sinks"]:
+            if s.get("move_after") and i in s["move_after"]:
+                # another process (logrotate) moves the log file away between two calls
+                try:
+                    os.rename(s["path"], "%s.moved%d.log" % (os.path.splitext(s["path"])[0], i))
+                    report("moved %s %d" % (s["name"], i))
+                except OSError:
+                    pass
         after(i)
         maybe_fork(i)
     report("end")
@@ -340,14 +391,17 @@ def run_stage(dirpath, child_py, spec, idx):
     if spec.get("close_stderr"):
         cmd = ["/bin/sh", "-c", 'exec "$0" "$@" 2>&-'] + cmd     # a process started without fd 2: sys.stderr is None
     err_sink = [x for x in spec["sinks"] if x.get("impl") == "stderr"]
+    out_sink = [x for x in spec["sinks"] if x.get("impl") == "stdoutwt"]
     with open(errp, "wb") as ef:
-        if err_sink:
-            with open(os.path.join(dirpath, err_sink[0]["path"]), "ab") as sf:
-                p = subprocess.Popen(cmd, cwd=dirpath, pass_fds=(w,), stdin=subprocess.DEVNULL,
-                                     stdout=ef, stderr=sf, env=env)
-        else:
+        sf = open(os.path.join(dirpath, err_sink[0]["path"]), "ab") if err_sink else None
+        of = open(os.path.join(dirpath, out_sink[0]["path"]), "ab") if out_sink else None
+        try:
             p = subprocess.Popen(cmd, cwd=dirpath, pass_fds=(w,), stdin=subprocess.DEVNULL,
-                                 stdout=ef, stderr=ef, env=env)
+                                 stdout=of or ef, stderr=sf or ef, env=env)
+        finally:
+            for x in (sf, of):
+                if x is not None:
+                    x.close()
     os.close(w)
     buf = b""
     deadline = time.time() + CHILD_TIMEOUT
@@ -583,7 +637,29 @@ STREAM_IMPLS = {
     "proxy": (1, 0, 0),      # write() + __getattr__ forwarding everything else to a block-buffered file
     "propproxy": (1, 0, 0),  # write() + flush / stop as properties returning the file's methods
     "reconf": (1, 1, 0),     # open(path, "a", buffering=1), then reconfigure(line_buffering=False) after add()
+    "wtbuf": (1, 0, 1),      # TextIOWrapper(BufferedWriter, write_through=True): reaches the buffer, not the OS
+    "linewt": (1, 1, 1),     # TextIOWrapper(BufferedWriter, line_buffering=True, write_through=True)
+    "wtsmall": (1, 0, 1),    # write_through over a BufferedWriter with a 64-byte buffer
+    "linesmall": (1, 1, 0),  # line_buffering over a BufferedWriter with a 16-byte buffer
+    "stdoutwt": (1, 1, 1),   # the process's own sys.stdout after reconfigure(write_through=True), redirected to a file
 }
+
+# how the io object is really layered: (BufferedWriter under the text layer?, line_buffering, write_through)
+LAYERS = {
+    "block": (1, 0, 0), "line": (1, 1, 0), "bigbuf": (1, 0, 0), "wt": (0, 0, 1), "rawwrap": (0, 0, 0),
+    "linewrap": (1, 1, 0), "stderr": (1, 1, 0), "proxy": (1, 0, 0), "propproxy": (1, 0, 0), "reconf": (1, 0, 0),
+    "wtbuf": (1, 0, 1), "linewt": (1, 1, 1), "wtsmall": (1, 0, 1), "linesmall": (1, 1, 0), "stdoutwt": (1, 0, 1),
+}
+
+
+def sink_layers(sink):
+    """layering of the io object behind a stream sink, or None (user classes that are not io objects)"""
+    impl = sink.get("impl", "wrapper")
+    if impl == "wrapper":
+        if sink.get("inner"):
+            return LAYERS[sink["inner"]]
+        return (1, 1 if sink.get("buffering", -1) == 1 else 0, 0)
+    return LAYERS.get(impl)
 
 
 def stream_attrs(sink):
@@ -596,7 +672,7 @@ def stream_attrs(sink):
 def all_streams(rng, **kw):
     impls = list(STREAM_IMPLS)
     rng.shuffle(impls)
-    return [stream_sink(name="S%d" % i, path=("E%d.err" if impl == "stderr" else "S%d.txt") % i, impl=impl, **kw)
+    return [stream_sink(name="S%d" % i, path=("E%d.err" if impl in ("stderr", "stdoutwt") else "S%d.txt") % i, impl=impl, **kw)
             for i, impl in enumerate(impls)]
 
 
@@ -624,7 +700,7 @@ def gen_stream_messages(rng, n):
 
 def real_stream(rng, **kw):
     impl = rng.choice(sorted(STREAM_IMPLS))
-    return stream_sink(impl=impl, path="E.err" if impl == "stderr" else "S.txt", **kw)
+    return stream_sink(impl=impl, path="E.err" if impl in ("stderr", "stdoutwt") else "S.txt", **kw)
 
 
 # environments an interpreter may be started in (the exit clause holds in all of them)
@@ -719,6 +795,45 @@ def gen_cases(ctx):
     add("crash", [{"sinks": [stream_sink(flushable=False, buffering=-1)], "messages": small,
                    "die": {"mode": "os_exit", "k": 3}}], io_only=True)
 
+
+    # A8: the other open() arguments of the file sink: explicit buffering=1 with mode a / w / x, delay, watch with the
+    #     log file moved away by "another process" between two calls (logrotate), rotation on top
+    for rep in range(ctx.n(4, 16) * boost):
+        n = rng.range(3, K)
+        rotation = rng.chance(40)
+        msgs = gen_messages(rng, n, rotation)
+        mode = rng.choice(["a", "w", "x", "a"])
+        watch = rng.chance(60)
+        k = rng.range(0, n)
+        dmode = rng.choice(["os_exit", "sigkill", "mid"])
+        if dmode == "mid" and k >= n:
+            dmode = "os_exit"
+        moves = sorted({rng.range(1, k - 1) for _ in range(rng.range(1, 2))}) if (watch and k >= 2) else None
+        pre = {"F.log": rng.choice(["earlier run\n", "no final newline"])} if (mode != "x" and rng.chance(60)) else {}
+        add("crash", [{"sinks": [file_sink(buffering=1, mode=mode, delay=rng.chance(50), watch=watch, rotation=rotation,
+                                           move_after=moves)],
+                       "messages": msgs, "die": {"mode": dmode, "k": k}}], pre=pre)
+    # A8b: a block-buffered file sink (the user's choice; claim (a) does not apply): nothing foreign, nothing reordered
+    msgs = gen_messages(rng, 4, False, small=True)
+    add("crash", [{"sinks": [file_sink(buffering=rng.choice([-1, 4096]))], "messages": msgs,
+                   "die": {"mode": "os_exit", "k": rng.range(1, 4)}}])
+    # A8c: a long text without line end between ordinary calls: CPython's layers spill by size (theorem f7_window)
+    msgs = [{"text": "before", "shape": "ascii"}, {"text": "y" * rng.choice([8192, 9000, 20000]), "raw": True, "shape": "raw-no-newline"},
+            {"text": "tail", "raw": True, "shape": "raw-no-newline"}]
+    add("crash", [{"sinks": [file_sink()], "messages": msgs, "die": {"mode": "os_exit", "k": 3}}])
+    # A9: CPython io LAYERS (TextIOWrapper over BufferedWriter / a raw file, line_buffering, write_through) behind a
+    #     stream WITHOUT flush: validates Buffer/Layers.lean (the property claims nothing for such streams)
+    inners = ["block", "line", "wt", "wtbuf", "linewt", "rawwrap", "linewrap"]
+    small = []
+    for i in range(4):
+        if rng.chance(50):
+            small.append({"text": "part %d" % i, "raw": True, "shape": "raw-no-newline"})
+        else:
+            small.append({"text": "%s #%d" % (rng.choice(SHAPES[:7])[1], i), "shape": "small"})
+    add("crash", [{"sinks": [stream_sink(name="S%d" % i, path="S%d.txt" % i, flushable=False, inner=inner)
+                             for i, inner in enumerate(inners)],
+                   "messages": small, "die": {"mode": "os_exit", "k": rng.range(1, 4)}}], io_only=True)
+
     # B3: a backlog that takes long to write at exit (gated sinks: nothing is written before the program has reached
     #     its end; bounded waits are time-compressed, see the child): stop() may not return before the queue is drained
     for rep in range(ctx.n(1, 3) * boost):
@@ -754,6 +869,47 @@ def gen_cases(ctx):
         add("exit", [{"sinks": [file_sink(enqueue=enq, retention=1)], "messages": msgs,
                       "die": {"mode": rng.choice(["return", "sys_exit", "unhandled"])}}],
             pre={"F.old1.log": "old one\n", "F.old2.log": "old two\n"}, old=["F.old1.log", "F.old2.log"])
+    # B4: exit clause for every buffering / mode / delay of the file sink (block-buffered sinks hold everything in user
+    #     space until stop()), next to a stream that has stop() but no flush(); a delayed sink without any message
+    for rep in range(ctx.n(3, 10) * boost):
+        enq = rep % 2 == 1
+        delay = rng.chance(50)
+        nm = 0 if (delay and rng.chance(35)) else rng.range(1, K)
+        msgs = gen_exit_messages(rng, nm)
+        st = {"sinks": [file_sink(enqueue=enq, compression="gz", buffering=rng.choice([-1, 1, 4096, 2]),
+                                  mode=rng.choice(["a", "w"]), delay=delay),
+                        stream_sink(enqueue=enq, stoppable=True, flushable=rng.chance(60))],
+              "messages": msgs, "die": {"mode": rng.choice(["return", "sys_exit", "unhandled"])}}
+        st.update(ENVIRONMENTS[rep % 3])
+        add("exit", [st])
+    # B5: the worker thread of an enqueued handler has ENDED before the exit (its stream raised SystemExit): the exit
+    #     must not hang, the handler is removed, its stream stopped; the other handler is complete
+    for rep in range(ctx.n(1, 4) * boost):
+        msgs = [m for m in gen_exit_messages(rng, 8) if len(m["text"]) < 200][:5]
+        st = {"sinks": [stream_sink(enqueue=True, stoppable=True, die_on=rng.range(1, max(1, len(msgs)))),
+                        file_sink(enqueue=True, compression="gz")],
+              "messages": msgs, "die": {"mode": rng.choice(["return", "sys_exit", "unhandled"])}}
+        add("exit", [st])
+    # B6: records that the worker of an enqueued handler cannot rebuild (their un-pickling raises - any Exception class),
+    #     followed by further messages, then every kind of normal exit: only those records may be missing
+    UNPICKLE_ERRORS = ["OSError", "EOFError", "FileNotFoundError", "ConnectionResetError", "BrokenPipeError",
+                       "PermissionError", "TimeoutError", "BlockingIOError", "ValueError", "KeyError", "TypeError",
+                       "AttributeError", "ImportError", "ModuleNotFoundError", "RuntimeError", "RecursionError",
+                       "MemoryError", "LookupError", "IndexError", "ArithmeticError", "ZeroDivisionError",
+                       "UnicodeDecodeError", "StopIteration", "AssertionError", "NotImplementedError", "BufferError",
+                       "UnpicklingError", "PicklingError", "Exception"]
+    modes = ["return", "sys_exit", "unhandled"]
+    for rep in range(ctx.n(3, 9) * boost):
+        n = rng.range(4, max(4, K))
+        msgs = gen_exit_messages(rng, n)
+        for j in sorted({rng.range(0, n - 2) for _ in range(rng.range(1, 2))}):
+            msgs[j] = dict(msgs[j], poison=rng.choice(UNPICKLE_ERRORS[:8] if rep % 3 == 0 else UNPICKLE_ERRORS),
+                           shape=msgs[j].get("shape", "?") + "+unpicklable")
+        st = {"sinks": [file_sink(enqueue=True, compression="gz"),
+                        stream_sink(enqueue=True, stoppable=True, proxy=rng.choice([None, "getattr"]))],
+              "messages": msgs, "die": {"mode": modes[rep % 3]}}
+        st.update(ENVIRONMENTS[(rep // 3) % 3])
+        add("exit", [st])
     # B2: the exit clause in a process FORKED after add() (daemonisation recipe: the launcher leaves with os._exit -
     #     at once, or after waiting for the child - and the forked process exits normally); handlers without
     #     enqueue, end-of-life compression / retention and a stoppable stream make the finalisation observable
@@ -787,7 +943,7 @@ def call_tok(sink, m, text):
     """one call for the Lean driver; `text` is what the handler emitted (reported by the child)"""
     fmt = sink.get("format", "static")
     ser = bool(sink.get("serialize"))
-    rot = 1 if (m.get("rot") and sink.get("rotation")) else 0
+    rot = (1 if (m.get("rot") and sink.get("rotation")) else 0) + (4 if m.get("poison") else 0)
     if ser:
         body = text[:-1] if text.endswith("\n") else text   # the JSON document is opaque to the model
         return "%d:s:0:1:%s:-" % (rot, enc(body))
@@ -802,6 +958,76 @@ def call_tok(sink, m, text):
 
 PRIMS_AT = {"rename-before": 2, "rename-after": 3, "compress": 3}
 
+
+
+# ----------------------------------------------------------------------------- in-process grid: the two decisions of StreamSink
+def grid_object(hf, sf, lb, wt, hs, ss):
+    """a stream object for every combination of: flush()/stop() found by getattr (hf/hs) and/or by a static lookup
+    (sf/ss), line_buffering / write_through reported.  Returns (object, call counters)."""
+    calls = {"flush": 0, "stop": 0, "write": 0}
+
+    class StaticOnly:
+        """callable when looked up statically, but not an attribute of the instance"""
+        def __call__(self):
+            pass
+
+        def __get__(self, obj, typ=None):
+            raise AttributeError("not available on instances")
+
+    def bump(name):
+        def f(*a):
+            calls[name] += 1
+        return f
+
+    ns, dyn = {"write": lambda self, m: bump("write")(), "encoding": "utf8"}, {}
+    for name, has, static in (("flush", hf, sf), ("stop", hs, ss)):
+        if has and static:
+            ns[name] = (lambda n: (lambda self: bump(n)()))(name)
+        elif has:
+            dyn[name] = bump(name)                 # provided through __getattr__ only (delegation)
+        elif static:
+            ns[name] = StaticOnly()
+    if lb:
+        ns["line_buffering"] = True
+    if wt:
+        ns["write_through"] = True
+    if dyn:
+        def ga(self, n):
+            if n in dyn:
+                return dyn[n]
+            raise AttributeError(n)
+        ns["__getattr__"] = ga
+    return type("GridStream", (), ns)(), calls
+
+
+def run_grid(combo):
+    """what StreamSink does with one grid object: (flushed after write?, stop() calls, error or None)"""
+    from loguru._simple_sinks import StreamSink
+    obj, calls = grid_object(*combo)
+    try:
+        sink = StreamSink(obj)
+        sink.write("m")
+        flushed = calls["flush"] >= 1
+        sink.stop()
+        return flushed, calls["stop"], None
+    except Exception as e:      # noqa: BLE001 - whatever the sink does with the object is the observation
+        return calls["flush"] >= 1, calls["stop"], type(e).__name__
+
+
+def judge_grid(combo, obs):
+    """direct oracle: a stream that HAS a callable flush is flushed after the write; one that has stop() is stopped once"""
+    hf, sf, lb, wt, hs, ss = combo
+    flushed, stops, err = obs
+    out = []
+    desc = "stream object (flush by getattr=%d static=%d, line_buffering=%d, write_through=%d, stop by getattr=%d static=%d)" % combo
+    if hf and not flushed:
+        out.append("%s: StreamSink.write returned without flushing a stream that has a callable flush()%s"
+                   % (desc, " (%s)" % err if err else ""))
+    if hs and not err and stops != 1:
+        out.append("%s: StreamSink.stop called the stream's stop() %d times" % (desc, stops))
+    if hf and hs and err:
+        out.append("%s: StreamSink raised %s" % (desc, err))
+    return out
 
 # ----------------------------------------------------------------------------- judging one case
 def judge(ctx, case, res, lines_out):
@@ -841,7 +1067,11 @@ def judge(ctx, case, res, lines_out):
                 if st is last:
                     inflight = tx.get(k + 1, "") if st["die"]["mode"] in ("mid", "rename", "compress") else ""
             pre = case.get("pre", {}).get(sink["path"], "")
+            if sink["kind"] == "file" and "a" not in sink.get("mode", "a") and len(stages) == 1 \
+                    and (not sink.get("delay") or acked or inflight):
+                pre = ""                       # mode "w": open() truncates what was there (delay: at the first write)
             expected = pre + "".join(acked)
+            claims = not (sink["kind"] == "file" and sink.get("buffering", 1) != 1)   # claim (a): default buffering only
             if sink["kind"] == "file":
                 rotated, current, names, ok = sink_files(files, sink)
                 cur = current or ""
@@ -858,6 +1088,8 @@ def judge(ctx, case, res, lines_out):
                     what = "an acked message is missing or torn on disk"
                 elif not (expected + inflight).startswith(observed):
                     what = "the log holds text that no call emitted"
+                if not claims and what == "an acked message is missing or torn on disk" and expected.startswith(observed):
+                    what = None      # a block-buffered sink (the user's choice): only "nothing foreign, nothing reordered"
                 ctx.stat("files_per_sink:%d" % len(names))
             else:
                 b = files.get(sink["path"], b"")
@@ -903,9 +1135,20 @@ def judge(ctx, case, res, lines_out):
                     j = PRIMS_AT["compress"]
                 else:
                     j = 0
-                line = "crash %s %d %d 0 %d %d %s" % (
-                    "~" if ex is None else enc(ex), 1 if sink.get("rotation") else 0,
-                    1 if sink.get("compression") else 0, k, j, " ".join(toks))
+                if any(sink.get(o) is not None for o in ("mode", "buffering", "delay", "watch", "move_after")):
+                    mv = set(sink.get("move_after") or [])
+                    # the call after a move finds the file gone and re-opens (flag 2 on that call's token)
+                    toks = [("%d" % (int(t[0]) + 2)) + t[1:] if (sink.get("watch") and i in mv) else t
+                            for i, t in enumerate(toks)]
+                    line = "crashx %s %d %d 0 %d %s %d %d %d %s" % (
+                        "~" if ex is None else enc(ex), 1 if sink.get("rotation") else 0,
+                        1 if sink.get("compression") else 0, sink.get("buffering", 1), sink.get("mode", "a")[0],
+                        1 if sink.get("delay") else 0, k, j + (1 if (sink.get("watch") and k in mv and j) else 0),
+                        " ".join(toks))
+                else:
+                    line = "crash %s %d %d 0 %d %d %s" % (
+                        "~" if ex is None else enc(ex), 1 if sink.get("rotation") else 0,
+                        1 if sink.get("compression") else 0, k, j, " ".join(toks))
                 rotated, current, names, ok = sink_files(files, sink)
                 real = sorted(x for x in rotated if x != "") + [current or ""]
                 lines_out.append((line.rstrip(), ("disk", real), case, name))
@@ -917,7 +1160,12 @@ def judge(ctx, case, res, lines_out):
                                 or (sink.get("impl", "wrapper") == "wrapper" and sink.get("buffering", -1) == 1)) else 0
                 # is flush found by a STATIC lookup (class or instance dict, no __getattr__, not a property)?
                 static = 0 if (sink.get("impl") in ("proxy", "propproxy") or sink.get("proxy")) else hf
-                line = "stream %d %d %d %d %d %d %s" % (hf, static, lba, wt, real_lb, kk, " ".join(toks[:kk]))
+                lay = sink_layers(sink)
+                if lay is not None:
+                    line = "lstream %d %d %d %d %d %d %d %d %s" % (hf, static, lba, wt, lay[0], lay[1], lay[2], kk,
+                                                                 " ".join(toks[:kk]))
+                else:
+                    line = "stream %d %d %d %d %d %d %s" % (hf, static, lba, wt, real_lb, kk, " ".join(toks[:kk]))
                 lines_out.append((line.rstrip(), ("os", decode(files.get(sink["path"], b""))), case, name))
         return viol
 
@@ -938,6 +1186,10 @@ def judge(ctx, case, res, lines_out):
         name = sink["name"]
         tx = rp["texts"].get(name, {})
         expected = "".join(tx.get(i, "") for i in range(1, n + 1))
+        poisoned = [i for i in range(1, n + 1) if st["messages"][i - 1].get("poison")] if sink.get("enqueue") else []
+        # a record that cannot be rebuilt by the worker cannot be written (reported on stderr); every OTHER call
+        # returned normally and must be in the sink, in order
+        without = "".join(tx.get(i, "") for i in range(1, n + 1) if i not in poisoned)
         problems = []
         if rp["late"].get(name) != "removed":
             problems.append("handler still registered after the interpreter's exit callbacks (%r)" % rp["late"].get(name))
@@ -945,12 +1197,20 @@ def judge(ctx, case, res, lines_out):
             rotated, current, names, ok = sink_files(files, sink)
             covered = tile(expected, rotated)
             observed = None if covered is None else expected[:covered] + (current or "")
+            if poisoned and tile(without, rotated) is not None:
+                covered = tile(without, rotated)
+                observed = without[:covered] + (current or "")
+                expected = without
             if not ok or covered is None or observed != expected:
                 problems.append("not every message reached the files: expected %r, found %r"
                                 % (expected[-160:], (observed or "")[-160:]))
             gz_eol = (sink["path"] + ".gz") in files
             plain = sink["path"] in files
             want_gz = bool(sink.get("compression")) and not sink.get("rotation")
+            if sink.get("delay") and not expected and not any(i in tx for i in range(1, n + 1)):
+                want_gz = False          # a delayed sink that never got a message has created nothing
+                if names:
+                    problems.append("a delayed sink without messages left files behind: %s" % sorted(names))
             if want_gz and (not gz_eol or plain):
                 problems.append("end-of-life compression not performed (files: %s)" % sorted(names))
             if not want_gz and gz_eol:
@@ -960,31 +1220,49 @@ def judge(ctx, case, res, lines_out):
                 if left:
                     problems.append("end-of-life retention not performed: %s still there" % left)
             toks = [call_tok(sink, m, tx.get(i + 1, "")) for i, m in enumerate(st["messages"])]
-            for q in sorted({0, n, ctx.rng.range(0, n)}):
-                line = "exitf %d %d %d %d %d %d %s" % (1 if sink.get("enqueue") else 0, 0 if st.get("fork") else 1,
-                                                    1 if sink.get("rotation") else 0,
-                                                    1 if sink.get("compression") else 0,
-                                                    1 if sink.get("retention") is not None else 0, q, " ".join(toks))
+            for q in ([0] if poisoned else sorted({0, n, ctx.rng.range(0, n)})):
+                if poisoned or any(sink.get(o) is not None for o in ("mode", "buffering", "delay")):
+                    line = "exitfx %d %d %d %d %d %d %s %d - %d %s" % (
+                        1 if sink.get("enqueue") else 0, 0 if st.get("fork") else 1, 1 if sink.get("rotation") else 0,
+                        1 if sink.get("compression") else 0, 1 if sink.get("retention") is not None else 0,
+                        sink.get("buffering", 1), sink.get("mode", "a")[0], 1 if sink.get("delay") else 0, q, " ".join(toks))
+                else:
+                    line = "exitf %d %d %d %d %d %d %s" % (1 if sink.get("enqueue") else 0, 0 if st.get("fork") else 1,
+                                                        1 if sink.get("rotation") else 0,
+                                                        1 if sink.get("compression") else 0,
+                                                        1 if sink.get("retention") is not None else 0, q, " ".join(toks))
                 real = {"registered": 0 if rp["late"].get(name) == "removed" else 1,
-                        "eol_compressed": 1 if gz_eol else 0,
+                        "eol_compressed": 1 if gz_eol else 0, "want_gz": 1 if want_gz else 0,
                         "retained": 1 if (sink.get("retention") is not None and not [x for x in case.get("old", []) if x in files]) else 0,
                         "disk": sorted(x for x in rotated if x != "") + [current or ""]}
                 lines_out.append((line.rstrip(), ("exitf", real), case, name))
         else:
             observed = decode(files.get(sink["path"], b""))
-            if observed != expected:
+            dead = sink.get("die_on")
+            if dead is not None and sink.get("enqueue"):
+                # the stream itself ended the worker thread (SystemExit in write): what it had accepted before must be
+                # there, stop() must still be called, the exit must not hang; the rest is in no sink (not claimed)
+                before = "".join(tx.get(i, "") for i in range(1, dead))
+                if not observed.startswith(before) or not expected.startswith(observed):
+                    problems.append("texts written before the worker ended are missing: expected %r…, found %r"
+                                    % (before[-160:], observed[-160:]))
+            elif observed != expected and not (poisoned and observed == without):
                 problems.append("not every message reached the stream: expected %r, found %r"
                                 % (expected[-160:], observed[-160:]))
             if sink.get("stoppable"):
                 if rp["stops"].count(name) != 1:
                     problems.append("stream.stop() called %d times" % rp["stops"].count(name))
             toks = [call_tok(sink, m, tx.get(i + 1, "")) for i, m in enumerate(st["messages"])]
-            for q in sorted({0, n}):
-                line = "exits %d %d %d %d %d %s" % (1 if sink.get("enqueue") else 0, 0 if st.get("fork") else 1,
-                                                 1 if sink.get("flushable", True) else 0,
-                                                 1 if sink.get("stoppable") else 0, q, " ".join(toks))
+            for q in ([0] if poisoned else sorted({0, n})):
+                hf = 1 if sink.get("flushable", True) else 0
+                hs = 1 if sink.get("stoppable") else 0
+                delegated = bool(sink.get("proxy"))
+                line = "exitsx %d %d %d %d %d %d %s %d %s" % (
+                    1 if sink.get("enqueue") else 0, 0 if st.get("fork") else 1, hf, 0 if delegated else hf,
+                    hs, 0 if delegated else hs,
+                    "-" if (dead is None or not sink.get("enqueue")) else str(min(dead - 1, n)), q, " ".join(toks))
                 real = {"registered": 0 if rp["late"].get(name) == "removed" else 1,
-                        "stops": rp["stops"].count(name), "os": observed}
+                        "stops": rp["stops"].count(name), "os": observed, "flushable": hf}
                 lines_out.append((line.rstrip(), ("exits", real), case, name))
         for pr in problems:
             viol.append(("%s sink %s (enqueue=%s) after %s: %s" % (sink["kind"], name, bool(sink.get("enqueue")), die["mode"], pr), None))
@@ -1000,6 +1278,10 @@ def compare_model(kind_real, out):
     if kind == "disk":
         disk = [dec(x) for x in p[2:]]
         model = sorted(x for x in disk[:-1] if x != "") + [disk[-1] if disk else ""]
+        pend = dec(p[1])
+        if model != real and pend and len(pend) > 4096 and model[:-1] == real[:-1] and real[-1].startswith(model[-1]) \
+                and (model[-1] + pend).startswith(real[-1]):
+            return None     # a size-driven spill of CPython's layers: any prefix of the pending text (theorem f7_window)
         return None if model == real else "files on disk: model %r, observed %r" % ([x[-80:] for x in model], [x[-80:] for x in real])
     if kind == "os":
         return None if dec(p[2]) == real else "stream file: model %r, observed %r" % (dec(p[2])[-120:], real[-120:])
@@ -1022,9 +1304,10 @@ def compare_model(kind_real, out):
             bad.append("registered: model %d observed %d" % (registered, real["registered"]))
         if stops != real["stops"]:
             bad.append("stop() calls: model %d observed %d" % (stops, real["stops"]))
-        if dec(p[6]) != real["os"]:
-            bad.append("stream file: model %r observed %r" % (dec(p[6])[-100:], real["os"][-100:]))
-        if hung != "0" or stopped != "1" or dec(p[5]) != "":
+        mos = dec(p[6]) + ("" if real.get("flushable", 1) else dec(p[5]))   # no flush(): the user's stop() closes the file
+        if mos != real["os"]:
+            bad.append("stream file: model %r observed %r" % (mos[-100:], real["os"][-100:]))
+        if hung != "0" or stopped != "1" or (dec(p[5]) != "" and real.get("flushable", 1)):
             bad.append("model: stopped=%s hung=%s pending=%r" % (stopped, hung, dec(p[5])))
         return "; ".join(bad) or None
     return "unknown kind"
@@ -1118,8 +1401,29 @@ def run(ctx):
                 ctx.violation(what, {"case": strip_case(case)}, key=key)
             ctx.sample({"kind": case["kind"], "die": die, "sinks": [s["name"] + ":" + s["kind"] for s in case["stages"][-1]["sinks"]],
                         "shapes": [m.get("shape") for m in case["stages"][-1]["messages"]]})
+        # ---- in-process grid over everything a stream object may expose (64 objects)
+        grid = []
+        for n in range(64):
+            combo = tuple((n >> b) & 1 for b in range(6))
+            obs = run_grid(combo)
+            ctx.case("grid:%d" % n, nontrivial=bool(combo[0] or combo[4]))
+            ctx.stat("grid_objects")
+            for what in judge_grid(combo, obs):
+                ctx.violation(what, {"case": {"kind": "grid", "combo": list(combo)}})
+            grid.append((combo, obs))
         # ---- correspondence with the Lean model
         drv = core.Driver(DRIVER)
+        gout = drv.run(["kern %d %d %d %d %d %d" % c for c, _ in grid])
+        for (combo, obs), o in zip(grid, gout):
+            ctx.traces_validated += 1
+            ctx.evaluations += 1
+            p = o.split(" ")
+            if obs[2] is None and (p[0] != "ok" or int(p[1]) != (1 if obs[0] else 0) or int(p[2]) != obs[1]):
+                ctx.broke("correspondence Buffer model", "kern %r -> %s, observed %r" % (combo, o, obs))
+                ctx.violation("implementation and model disagree on what StreamSink does with a stream object %r: "
+                              "model %s, observed flushed=%s stop()=%d" % (combo, o, obs[0], obs[1]),
+                              {"case": {"kind": "grid", "combo": list(combo)}}, kind="correspondence")
+                break
         out = drv.run([l for l, _, _, _ in lines])
         dis = 0
         for (line, kr, case, name), o in zip(lines, out):
@@ -1132,7 +1436,7 @@ def run(ctx):
                 # the model counts compression / retention calls; rotations during the run add to them,
                 # the end-of-life one is the difference to a run without stop (not observable) - compare
                 # the end-of-life effect itself
-                want_gz = 1 if (sink.get("compression") and not sink.get("rotation")) else 0
+                want_gz = kr[1].get("want_gz", 1 if (sink.get("compression") and not sink.get("rotation")) else 0)
                 if kr[1]["eol_compressed"] != want_gz:
                     bad = "end-of-life compression: observed %d" % kr[1]["eol_compressed"]
                 nrot = sum(1 for m in case["stages"][0]["messages"] if m.get("rot")) if sink.get("rotation") else 0
@@ -1145,7 +1449,10 @@ def run(ctx):
                 f7case = any(m.get("shape") == "raw-no-newline" for st in case["stages"] for m in st["messages"])
                 dis += 1
                 ctx.stat("disagreements")
-                io_only = case.get("io_only") or any(not s.get("flushable", True) for s in case["stages"][-1]["sinks"] if s["name"] == name)
+                io_only = case.get("io_only") or any(
+                    (not s.get("flushable", True)) or (s["kind"] == "file" and s.get("buffering", 1) != 1 and case["kind"] == "crash")
+                    or s.get("die_on") is not None
+                    for s in case["stages"][-1]["sinks"] if s["name"] == name)
                 if io_only:
                     ctx.broke("correspondence CPython-io (TextFile model)", "%s -> %s: %s" % (line[:200], o[:200], bad))
                 else:
@@ -1168,6 +1475,26 @@ def run(ctx):
 def replay(ctx, rep):
     r = rep["replay"]
     case = r["case"]
+    if case.get("kind") == "grid":
+        combo = tuple(case["combo"])
+        obs = run_grid(combo)
+        viol = judge_grid(combo, obs)
+        print("grid object %r: flushed=%s stop()=%d error=%s" % (combo, obs[0], obs[1], obs[2]))
+        for w in viol:
+            print("oracle:", w)
+        bad = bool(viol)
+        try:
+            core.extract()
+            core.lean_build(["LoguruModel.Buffer.Layers"], timeout=600)
+            o = core.Driver(DRIVER).run(["kern %d %d %d %d %d %d" % combo])[0]
+            p = o.split(" ")
+            if obs[2] is None and (p[0] != "ok" or int(p[1]) != (1 if obs[0] else 0) or int(p[2]) != obs[1]):
+                print("model vs implementation: model %s" % o)
+                bad = True
+        except core.DriverError as e:
+            print("model driver does not run (broken tie G): %s" % str(e).splitlines()[0])
+        print("REPRODUCED" if bad else "not reproduced")
+        return 1 if bad else 0
     root = tempfile.mkdtemp(prefix="c09r_")
     try:
         child_py = os.path.join(root, "_child.py")
@@ -1186,7 +1513,7 @@ def replay(ctx, rep):
         if lines:
             try:
                 core.extract()   # the model must speak about the tree under replay, not about the last one checked
-                core.lean_build(["LoguruModel.Buffer.Model"], timeout=600)
+                core.lean_build(["LoguruModel.Buffer.Layers"], timeout=600)
                 out = core.Driver(DRIVER).run([l for l, _, _, _ in lines])
             except core.DriverError as e:
                 print("model driver does not run (broken tie G): %s" % str(e).splitlines()[0])
